@@ -223,7 +223,21 @@ static void test_dir(const char *p) {
 }
 
 static void test_file(const char *p) {
-  int fd = open(p, O_WRONLY | O_APPEND);
+  int fd;
+  op("chmod_self", chmod(p, 0666));
+  op("truncate", truncate(p, 0));
+  fd = open(p, O_WRONLY | O_TRUNC);
+  op("open_trunc", fd < 0 ? -1 : 0);
+  if (fd >= 0) close(fd);
+  // removing / renaming the object itself (a mount point answers EBUSY, a read-only one EROFS or EBUSY)
+  char b[1100];
+  snprintf(b, sizeof b, "%s.vp_r", p);
+  int r = rename(p, b);
+  op("rename_self", r);
+  if (r == 0) rename(b, p);
+  op("unlink_self", unlink(p));
+  // last, so that what was written stays for whoever reads the file next
+  fd = open(p, O_WRONLY | O_APPEND);
   op("open_w", fd < 0 ? -1 : 0);
   if (fd >= 0) {
     op("write", write(fd, "x", 1) == 1 ? 0 : -1);
@@ -231,8 +245,6 @@ static void test_file(const char *p) {
   } else {
     op_skip("write");
   }
-  op("chmod_self", chmod(p, 0666));
-  op("truncate", truncate(p, 0));
   test_remount(p);
 }
 
